@@ -45,6 +45,8 @@ NAMED_TYPES = {'box': BOX, 'kp': KP, 'c6': C6, 'Q': Q, 'Z': Z, 'bool': B, 'str':
 
 
 def parse_type(t):
+    if t == 'hdr':
+        return 'hdr'
     if isinstance(t, str):
         if t in NAMED_TYPES:
             return NAMED_TYPES[t]
@@ -71,6 +73,8 @@ def coq_type(t):
         return 'unit'
     if t == ARR:
         return 'view'
+    if t == 'hdr':
+        return 'header'
     if t == NONE:
         return 'unit'
     if t[0] == 'tuple':
@@ -88,6 +92,26 @@ class TransError(Exception):
     pass
 
 
+# types of transform-method parameters / parameter-dict entries / instance attributes, by name
+NAME_TYPES = {
+    'img': 'arr', 'image': 'arr', 'mask': 'arr', 'bbox': 'box', 'keypoint': 'kp', 'dicom': 'hdr',
+    'rows': 'Z', 'cols': 'Z', 'slices': 'Z', 'factor': 'Z', 'axes': 'str', 'd': 'Z',
+    'h_start': 'Q', 'w_start': 'Q', 'd_start': 'Q', 'crop_height': 'Z', 'crop_width': 'Z', 'crop_depth': 'Z',
+    'x_min': 'Z', 'y_min': 'Z', 'z_min': 'Z', 'x_max': 'Z', 'y_max': 'Z', 'z_max': 'Z',
+    'pad_top': 'Z', 'pad_bottom': 'Z', 'pad_left': 'Z', 'pad_right': 'Z', 'pad_front': 'Z', 'pad_back': 'Z',
+    'interpolation': 'Z', 'scale': 'Q', 'scale_x': 'Q', 'scale_y': 'Q', 'scale_z': 'Q', 'max_size': 'Z',
+    'angle': 'Q', 'dx': 'Q', 'dy': 'Q', 'dz': 'Q', 'holes': 'holes', 'fill_value': 'Q', 'mask_fill_value': 'opt:Q',
+    'crop_params': 'optc6', 'pad_params': 'optc6', 'pad_value': 'Q', 'pad_value_mask': 'Q',
+    'result_rows': 'Z', 'result_cols': 'Z', 'result_slices': 'Z',
+    'height': 'Z', 'width': 'Z', 'depth': 'Z', 'border_mode': 'str', 'value': 'Q', 'mask_value': 'Q',
+    'min_height': 'opt:Z', 'min_width': 'opt:Z', 'min_depth': 'opt:Z',
+    'pad_height_divisor': 'opt:Z', 'pad_width_divisor': 'opt:Z', 'pad_depth_divisor': 'opt:Z',
+    'keep_size': 'bool', 'crop_to_border': 'bool', 'rotate_method': 'str', 'pad_mode': 'str',
+    'slope': 'Q', 'intercept': 'Q', 'space_x': 'Q', 'space_y': 'Q',
+}
+NAME_TYPES_P = {}
+
+
 COQ_RESERVED = {'at', 'in', 'end', 'fix', 'return', 'as', 'fun', 'let', 'match', 'with',
                 'if', 'then', 'else', 'forall', 'exists', 'Type', 'Set', 'Prop', 'where',
                 'using', 'for', 'cofix', 'struct', 'do'}
@@ -95,6 +119,8 @@ COQ_RESERVED = {'at', 'in', 'end', 'fix', 'return', 'as', 'fun', 'let', 'match',
 
 def vname(n):
     """Python local -> Coq identifier (prefixed so that it can never capture a global)."""
+    if n.startswith('@self_'):
+        return n[1:]
     return 'v_' + n
 
 
@@ -189,6 +215,10 @@ class FnSpec:
         self.node = None
         self.defaults = {}
         self.wrapper_of = wrapper_of
+        self.kwrest = None          # names carried by the method's **params (class methods)
+        self.has_kwargs = False     # the Python function accepts **kwargs
+        self.local_defaults = {}    # formals that are never supplied by the parameter dict: name -> default AST
+        self.never_supplied = []    # formals without default that the parameter dict never supplies
 
 
 class Expr:
@@ -358,7 +388,7 @@ class FnTranslator:
         sp = self.self_path(node, env)
         if sp is not None:
             if sp in self.spec.self_attrs:
-                return Expr('self_' + sp, self.spec.self_attrs[sp])
+                return Expr('self_' + sp, env.get('@self_' + sp, self.spec.self_attrs[sp]))
             raise TransError('attribute self.%s is not declared in the spec (line %d)' % (sp, node.lineno))
         if node.attr == 'shape':
             v = self.expr(node.value, env)
@@ -657,6 +687,24 @@ class FnTranslator:
         if isinstance(node.value, ast.Name) and node.value.id not in env \
                 and isinstance(self.consts().get(node.value.id), ast.Dict):
             return self.dict_lookup(self.consts()[node.value.id], node.slice, env, node.lineno)
+        if isinstance(node.value, ast.Attribute) and isinstance(node.value.value, ast.Name) \
+                and node.value.value.id == 'self' and getattr(self.spec, 'cls_nodes', None):
+            nm = node.value.attr
+            for c in self.spec.cls_nodes:
+                for b in c.body:
+                    if isinstance(b, ast.FunctionDef) and b.name in (nm, '_%s%s' % (c.name, nm)) \
+                            and len(b.body) >= 1 and isinstance(b.body[-1], ast.Return) \
+                            and isinstance(b.body[-1].value, ast.Dict):
+                        return self.dict_lookup(b.body[-1].value, node.slice, env, node.lineno)
+        if isinstance(node.value, ast.Name) and node.value.id in ('params', 'kwargs') \
+                and self.spec.kwrest is not None and isinstance(node.slice, ast.Constant) \
+                and isinstance(node.slice.value, str):
+            key = node.slice.value
+            if key in self.spec.kwrest and key in env:
+                return self.expr(ast.Name(id=key, ctx=ast.Load(), lineno=node.lineno), env)
+            self.effect_used = True
+            t_ = self.fresh('x')
+            return Expr(t_, Z, [(t_, 'Raise KeyError')])
         v = self.expr(node.value, env)
         sl = node.slice
         if v.ty == ARR:
@@ -806,8 +854,13 @@ class FnTranslator:
             t = self.fresh('v')
             return Expr(t, ARR, a.binds + pw.binds + mode.binds + val.binds +
                         [(t, 'np_pad %s %s %s %s' % (a.code, pw.code, mode.code, val.code))])
-        if isinstance(f, ast.Attribute) and f.attr in ('copy', 'transpose') and not isinstance(f.value, ast.Name) is False:
-            base = self.expr(f.value, env)
+        base = None
+        if isinstance(f, ast.Attribute) and f.attr in ('copy', 'transpose'):
+            try:
+                base = self.expr(f.value, env)
+            except TransError:
+                base = None
+        if base is not None:
             if base.ty == ARR and f.attr == 'copy':
                 return base
             if base.ty == ARR and f.attr == 'transpose':
@@ -922,9 +975,18 @@ class FnTranslator:
             if kw.arg is None:
                 # **params: forwards rows/cols/slices (and whatever the callee names) from env
                 if isinstance(kw.value, ast.Name) and kw.value.id in ('params', 'kwargs'):
+                    rest = self.spec.kwrest
                     for p, t in params:
-                        if p not in bound and p in env:
+                        if p not in bound and p in env and (rest is None or p in rest):
                             bound[p] = self.expr(ast.Name(id=p, ctx=ast.Load(), lineno=node.lineno), env)
+                    if rest is not None and not target.has_kwargs:
+                        extra = sorted(set(rest) - set(dict(params)))
+                        if extra:
+                            # Python: TypeError (unexpected keyword argument)
+                            self.effect_used = True
+                            t_ = self.fresh('x')
+                            return Expr(t_, target.ret if target.ret is not None else NONE,
+                                        [(t_, 'Raise TypeError')])
                     continue
                 raise TransError('**%s in call' % ast.unparse(kw.value))
             if kw.arg not in dict(params):
@@ -1125,6 +1187,14 @@ class FnTranslator:
             v = test.left.id
             if v in env and isinstance(env[v], tuple) and env[v][0] == 'opt':
                 return v, isinstance(test.ops[0], ast.Is)
+        if isinstance(test, ast.Compare) and len(test.ops) == 1 and isinstance(test.left, ast.Attribute) \
+                and isinstance(test.comparators[0], ast.Constant) and test.comparators[0].value is None \
+                and isinstance(test.ops[0], (ast.Is, ast.IsNot)):
+            sp = self.self_path(test.left, env)
+            if sp is not None and sp in self.spec.self_attrs:
+                t = env.get('@self_' + sp, self.spec.self_attrs[sp])
+                if isinstance(t, tuple) and t[0] == 'opt':
+                    return '@self_' + sp, isinstance(test.ops[0], ast.Is)
         return None
 
     def if_stmt(self, st, rest, env, k):
@@ -1137,7 +1207,10 @@ class FnTranslator:
         else:
             nv, none_then = nar
             env_s = dict(env)
-            env_s[nv] = env[nv][1]
+            if nv.startswith('@self_'):
+                env_s[nv] = self.spec.self_attrs[nv[6:]][1]
+            else:
+                env_s[nv] = env[nv][1]
             env_t, env_e = (env, env_s) if none_then else (env_s, env)
             if none_then:
                 mk = lambda a, b: '(match %s with None => %s\n | Some %s => %s end)' % (vname(nv), a, vname(nv), b)
@@ -1345,10 +1418,25 @@ class FnTranslator:
                 continue
             body.append(st)
         self.empty_lists = [v for v, t in env.items() if t == L(None)]
+        if self.spec.never_supplied:
+            # a required formal that the parameter dict never carries: the call raises TypeError
+            if not self.monadic:
+                raise TransError('never-supplied formal in pure mode')
+            self.effect_used = True
+            body = [ast.Raise(exc=ast.Name(id='TypeError', ctx=ast.Load()), cause=None, lineno=node.lineno, col_offset=0)]
+        prelude = ''
+        for nm, dnode in self.spec.local_defaults.items():
+            e = self.expr(dnode, {})
+            ty = NAME_TYPES_P.get(nm)
+            if ty is not None:
+                e = self.coerce(e, ty)
+            env[nm] = e.ty
+            prelude += "(let %s := %s in\n " % (vname(nm), e.code)
         endk = None
         if self.spec.ret == T():
             endk = lambda env2: ('Ok tt' if self.monadic else 'tt')
         code = self.block(body, env, endk)
+        code = prelude + code + ')' * prelude.count('(let ')
         params = ' '.join('(%s : %s)' % (vname(p), coq_type(t)) for p, t in self.spec.params)
         selfp = ' '.join('(self_%s : %s)' % (a, coq_type(t)) for a, t in sorted(self.spec.self_attrs.items()))
         if self.ret_ty is None:
@@ -1363,6 +1451,111 @@ class FnTranslator:
 
 # ----------------------------------------------------------------------------
 # module driver
+
+
+# ----------------------------------------------------------------------------
+# class-level translation: apply / apply_to_* methods with the keyword binding of
+# BasicTransform.apply_with_params made explicit
+
+APPLY_METHODS = ['apply', 'apply_to_mask', 'apply_to_bbox', 'apply_to_keypoint', 'apply_to_dicom']
+
+
+def class_defs(tree):
+    return {n.name: n for n in tree.body if isinstance(n, ast.ClassDef)}
+
+
+def dict_keys_returned(fn):
+    """keys of the dict literal(s) returned / passed to params.update(...) by a method"""
+    keys = []
+    for n in ast.walk(fn):
+        d = None
+        if isinstance(n, ast.Return) and isinstance(n.value, ast.Dict):
+            d = n.value
+        if isinstance(n, ast.Call) and isinstance(n.func, ast.Attribute) and n.func.attr == 'update' \
+                and n.args and isinstance(n.args[0], ast.Dict):
+            d = n.args[0]
+        if d is not None:
+            for k in d.keys:
+                if isinstance(k, ast.Constant) and isinstance(k.value, str) and k.value not in keys:
+                    keys.append(k.value)
+    return keys
+
+
+def attrs_assigned(cls_nodes):
+    """names X with `self.X = ...` in any __init__ of the given classes"""
+    out = set()
+    for c in cls_nodes:
+        for m in c.body:
+            if isinstance(m, ast.FunctionDef) and m.name == '__init__':
+                for n in ast.walk(m):
+                    if isinstance(n, ast.Assign):
+                        for t in n.targets:
+                            if isinstance(t, ast.Attribute) and isinstance(t.value, ast.Name) and t.value.id == 'self':
+                                out.add(t.attr)
+    return out
+
+
+def class_method_specs(m, tree, cspec, errors):
+    """FnSpecs for the apply-like methods of one class (own or inherited from cspec['bases'])"""
+    cds = class_defs(tree)
+    name = cspec['name']
+    mro = [name] + list(cspec.get('bases', []))
+    missing = [c for c in mro if c not in cds]
+    if missing:
+        errors.append({'function': name, 'file': m['file'], 'error': 'class(es) %s not found' % missing})
+        return []
+    nodes = [cds[c] for c in mro]
+
+    def find(method):
+        for c in nodes:
+            for b in c.body:
+                if isinstance(b, ast.FunctionDef) and b.name == method:
+                    return b
+        return None
+    keys = []
+    for meth in ('get_params', 'get_params_dependent_on_targets', 'update_params'):
+        fn = find(meth)
+        if fn is not None:
+            for k in dict_keys_returned(fn):
+                if k not in keys:
+                    keys.append(k)
+    assigned = attrs_assigned(nodes)
+    for a in ('interpolation', 'fill_value', 'mask_fill_value'):     # BasicTransform.update_params (hasattr)
+        if a in assigned and a not in keys:
+            keys.append(a)
+    for a in ('cols', 'rows', 'slices'):
+        if a not in keys:
+            keys.append(a)
+    keys = [k for k in keys if k in NAME_TYPES or k in cspec.get('key_types', {})]
+    ktypes = dict(NAME_TYPES)
+    ktypes.update(cspec.get('key_types', {}))
+    self_attrs = dict(cspec.get('self_attrs', {}))
+    specs = []
+    for meth in cspec.get('methods', APPLY_METHODS):
+        fn = find(meth)
+        if fn is None:
+            continue
+        formals = [a.arg for a in fn.args.args if a.arg != 'self']
+        data_arg, formals = formals[0], formals[1:]
+        dflt = dict(zip([a.arg for a in fn.args.args][len(fn.args.args) - len(fn.args.defaults):], fn.args.defaults))
+        unknown = [f for f in [data_arg] + formals if f not in ktypes]
+        if unknown:
+            errors.append({'function': name + '.' + meth, 'file': m['file'],
+                           'error': 'no type for parameter(s) %s' % unknown})
+            continue
+        sp = FnSpec(meth, [(data_arg, ktypes[data_arg])] + [(k, ktypes[k]) for k in keys],
+                    cls=name, self_attrs=self_attrs, coq_name=name + '_' + meth)
+        sp.node = fn
+        sp.decos = []
+        sp.has_kwargs = fn.args.kwarg is not None
+        sp.kwrest = [k for k in keys if k not in formals] if fn.args.kwarg is not None else []
+        sp.local_defaults = {f: dflt[f] for f in formals if f not in keys and f in dflt}
+        sp.never_supplied = [f for f in formals if f not in keys and f not in dflt]
+        sp.param_keys = keys
+        sp.cls_nodes = nodes
+        specs.append(sp)
+    return specs
+
 
 def find_functions(tree):
     out = {}
@@ -1444,7 +1637,7 @@ def translate_all(repo, modules, out_dir):
             if isinstance(n, ast.Assign) and len(n.targets) == 1 and isinstance(n.targets[0], ast.Name) \
                     and isinstance(n.value, (ast.Constant, ast.Set, ast.Tuple, ast.List)):
                 m['_consts'][n.targets[0].id] = n.value
-        for fs in m['functions']:
+        for fs in m.get('functions', []):
             spec = FnSpec(**fs)
             key = (spec.cls + '.' + spec.name) if spec.cls else spec.name
             node = funcs.get(key)
@@ -1469,6 +1662,15 @@ def translate_all(repo, modules, out_dir):
                 spec.coq_name = spec.cls + '_' + spec.name
             registry[spec.coq_name if spec.cls else spec.name] = spec
             m['_specs'].append(spec)
+    # class methods (apply-like), with the parameter-dict binding made explicit
+    NAME_TYPES_P.clear()
+    NAME_TYPES_P.update({k: parse_type(v) for k, v in NAME_TYPES.items()})
+    for m in modules:
+        src, tree = trees[m['file']]
+        for cspec in m.get('classes', []):
+            for sp in class_method_specs(m, tree, cspec, manifest['errors']):
+                registry[sp.coq_name] = sp
+                m['_specs'].append(sp)
     # decorators: the decorated function is translated as <name>_raw and the
     # wrapper body (from augmentations/utils.py) as <name>
     extra = []
